@@ -1034,3 +1034,11 @@ package ice
 //@   at call:(*sync.Pool).Put#0 lemma[C14] outlen(s.builderBuf) == 0 && outlen(s.metaBuf) == 0
 //@ // builds share nothing but the pool and the lazily created zstd coders (sync.Once)
 //@ confined[C14] newWithChunkMode encoder decoder
+//@
+//@ // ---- the doc-value reader's one-chunk cache (C13, C19) ----
+//@ // curChunkNum names the chunk whose header and data are cached. A load that fails must not
+//@ // leave the old number in place over a header it has already started to overwrite: either
+//@ // the cached header is untouched, or the cache is marked empty (MaxInt64 is no chunk number).
+//@ func (*docValueReader).loadDvChunk
+//@   ensures[C13,C19] @failed_load_leaves_cache_coherent result0 != nil ==> di.curChunkNum == 9223372036854775807 || (di.curChunkNum == old(di.curChunkNum) && di.curChunkHeader == old(di.curChunkHeader) && forall(j, 0, len(di.curChunkHeader), di.curChunkHeader[j].DocNum == old(di.curChunkHeader[j].DocNum) && di.curChunkHeader[j].DocDvOffset == old(di.curChunkHeader[j].DocDvOffset)))
+//@   ensures[C13,C19] @loaded_chunk_is_current result0 == nil ==> di.curChunkNum == chunkNumber
